@@ -1,10 +1,13 @@
-(* Proofs/CollBoundsInverted.v — finding C19-inverted-bounds: cmdSET ... BOUNDS minlat minlon maxlat maxlon
-   stores geometry.Rect{Min, Max} as given, also when min > max.  Model/Collection.v (and
+(* Proofs/CollBoundsInverted.v — finding C19-inverted-bounds (repaired in /repo by 85e217d): the PINNED
+   cmdSET ... BOUNDS minlat minlon maxlat maxlon (Model/SetBounds.v set_bounds_rect_pinned)
+   stores geometry.Rect{Min, Max} as given, also when min > max; the repaired one orders the corners.  Model/Collection.v (and
    c19_bounds_partial / bounds_exact) read o_rect as a rectangle; for an object whose "rectangle" has
    Min > Max the answer the code gives (the extreme float32 keys, admitted by bounds_ok and even
    accepted by bounds_exact, which compares min sides with min sides and max sides with max sides) is a
    box that does not contain that object's own corner. *)
-From T38 Require Import Base.Bytes Model.Float32 Model.Collection Proofs.CollectionProofs.
+From Coq Require Import Reals Lra.
+From Flocq Require Import Core BinarySingleNaN.
+From T38 Require Import Base.Bytes Model.Float32 Model.Collection Proofs.CollectionProofs Model.SetBounds.
 Import ListNotations.
 Local Open Scope Z_scope.
 
@@ -22,4 +25,88 @@ Lemma bounds_inverted_refuted :
 Proof.
   exists inv_coll, inv_answer, inv_a. split; [apply wf_run|].
   split; [vm_compute; auto|]. repeat split; vm_compute; reflexivity.
+Qed.
+
+(* ---------- against the explicit pinned variant ---------- *)
+Definition f10 : f64 := f64_of_bits 4621819117588971520.
+Definition f0 : f64 := f64_of_bits 0.
+
+Lemma bounds_inverted_pinned_refuted :
+  exists v0 v1 v2 v3 c b o,
+    o_rect o = set_bounds_rect_pinned v0 v1 v2 v3 /\ rect_ordered (o_rect o) = false /\
+    Wf c /\ In o (spatial_list c) /\ bounds_ok c b = true /\ bounds_exact c b = true /\
+    le64 (r64_minx (o_rect o)) (r64_maxx b) = false /\
+    (* the repaired construction on the same four numbers *)
+    rect_ordered (set_bounds_rect v0 v1 v2 v3) = true.
+Proof.
+  exists f10, f10, f0, f0, inv_coll, inv_answer, inv_a.
+  split; [reflexivity|]. split; [vm_compute; reflexivity|]. split; [apply wf_run|].
+  split; [vm_compute; auto|]. repeat split; vm_compute; reflexivity.
+Qed.
+
+(* ---------- the repaired construction: ordered corners at the source ---------- *)
+Local Open Scope R_scope.
+
+Lemma gt64_false_le (a b : f64) : is_finite a = true -> is_finite b = true -> gt64 a b = false -> le64 a b = true.
+Proof.
+  intros Fa Fb. unfold gt64, le64. rewrite (Bcompare_correct 53 1024 a b Fa Fb).
+  destruct (Rcompare (B2R a) (B2R b)); congruence.
+Qed.
+
+Lemma gt64_true_le (a b : f64) : is_finite a = true -> is_finite b = true -> gt64 a b = true -> le64 b a = true.
+Proof.
+  intros Fa Fb. unfold gt64, le64. rewrite (Bcompare_correct 53 1024 a b Fa Fb), (Bcompare_correct 53 1024 b a Fb Fa).
+  destruct (Rcompare_spec (B2R a) (B2R b)) as [H|H|H]; try discriminate. intros _.
+  rewrite (Rcompare_Lt _ _ H). reflexivity.
+Qed.
+
+Theorem set_bounds_ordered (v0 v1 v2 v3 : f64) :
+  is_finite v0 = true -> is_finite v1 = true -> is_finite v2 = true -> is_finite v3 = true ->
+  rect_ordered (set_bounds_rect v0 v1 v2 v3) = true.
+Proof.
+  intros F0 F1 F2 F3. unfold set_bounds_rect, rect_ordered.
+  destruct (gt64 v0 v2) eqn:E02; destruct (gt64 v1 v3) eqn:E13; cbn [r64_minx r64_miny r64_maxx r64_maxy];
+    apply andb_true_iff; split;
+    first [apply gt64_false_le; assumption | apply gt64_true_le; assumption].
+Qed.
+
+(* corners that are already ordered are stored as given *)
+Theorem set_bounds_keeps_ordered (v0 v1 v2 v3 : f64) :
+  gt64 v0 v2 = false -> gt64 v1 v3 = false -> set_bounds_rect v0 v1 v2 v3 = set_bounds_rect_pinned v0 v1 v2 v3.
+Proof. intros E1 E2. unfold set_bounds_rect, set_bounds_rect_pinned. rewrite E1, E2. reflexivity. Qed.
+
+Definition finite_rect (r : rect64) : Prop :=
+  is_finite (r64_minx r) = true /\ is_finite (r64_miny r) = true /\ is_finite (r64_maxx r) = true /\ is_finite (r64_maxy r) = true.
+
+Lemma le64_trans (a b c : f64) : is_finite a = true -> is_finite b = true -> is_finite c = true ->
+  le64 a b = true -> le64 b c = true -> le64 a c = true.
+Proof.
+  intros Fa Fb Fc. unfold le64.
+  rewrite (Bcompare_correct 53 1024 a b Fa Fb), (Bcompare_correct 53 1024 b c Fb Fc), (Bcompare_correct 53 1024 a c Fa Fc).
+  destruct (Rcompare_spec (B2R a) (B2R b)); try discriminate; intros _;
+  destruct (Rcompare_spec (B2R b) (B2R c)); try discriminate; intros _;
+  destruct (Rcompare_spec (B2R a) (B2R c)); try reflexivity; lra.
+Qed.
+
+(* with ordered rectangles in the index (what the repaired SET guarantees for BOUNDS objects) a box
+   the model calls exact does contain every indexed object: the pinned witness cannot occur *)
+Theorem ordered_box_contains c b : finite_rect b ->
+  (forall o, In o (spatial_list c) -> finite_rect (o_rect o) /\ rect_ordered (o_rect o) = true) ->
+  bounds_exact c b = true ->
+  forall o, In o (spatial_list c) ->
+    le64 (r64_minx (o_rect o)) (r64_maxx b) = true /\ le64 (r64_miny (o_rect o)) (r64_maxy b) = true /\
+    le64 (r64_minx b) (r64_maxx (o_rect o)) = true /\ le64 (r64_miny b) (r64_maxy (o_rect o)) = true.
+Proof.
+  intros (Fb1 & Fb2 & Fb3 & Fb4) Hall Hex o Ho.
+  destruct (Hall o Ho) as [(F1 & F2 & F3 & F4) Hord]. unfold rect_ordered in Hord.
+  apply andb_true_iff in Hord as [Hx Hy].
+  unfold spatial_list in Ho. apply in_map_iff in Ho as [e [He Hin]]. unfold bounds_exact in Hex.
+  destruct (c_spatial c) as [|e0 sp] eqn:Es; [destruct Hin|].
+  rewrite forallb_forall in Hex. specialize (Hex e Hin). cbv zeta in Hex. rewrite He in Hex.
+  apply andb_true_iff in Hex as [Hex H4]. apply andb_true_iff in Hex as [Hex H3]. apply andb_true_iff in Hex as [H1 H2].
+  repeat split.
+  - apply (le64_trans _ (r64_maxx (o_rect o))); assumption.
+  - apply (le64_trans _ (r64_maxy (o_rect o))); assumption.
+  - apply (le64_trans _ (r64_minx (o_rect o))); assumption.
+  - apply (le64_trans _ (r64_miny (o_rect o))); assumption.
 Qed.
